@@ -130,11 +130,13 @@ def race_pass(ctx, cov):
     shutil.copy(os.path.join(VERIF, "harness", "race", "zz_verif_race_test.go"), d)
     runs, reports, failures = 3, [], []
     for i in range(runs):
-        p = subprocess.run(["go", "test", "-race", "-vet=off", "-count=1", "-run", "TestVerifRace", "."], cwd=d, env=GOENV, capture_output=True, text=True, timeout=1800)
+        p = subprocess.run(["go", "test", "-race", "-vet=off", "-count=1", "-timeout", "180s", "-run", "TestVerifRace", "."], cwd=d, env=GOENV, capture_output=True, text=True, timeout=1800)
         out = p.stdout + p.stderr
         if "WARNING: DATA RACE" in out:
-            fns = re.findall(r"\n\s+(github.com/Workiva/frugal/lib/go\.[^\s(]+)\(", out)
-            fns = [f for f in fns if "TestVerifRace" not in f and ".func" not in f.split("/")[-1][:0]]
+            lines = re.findall(r"\n\s+(github\.com/Workiva/frugal/lib/go\.[^\n]+)", out)
+            # "pkg.(*T).Method(args)" -> "pkg.(*T).Method"
+            fns = [re.sub(r"\([^()]*\)$", "", l.strip()) for l in lines]
+            fns = [f for f in fns if "TestVerifRace" not in f and "zz_verif" not in f]
             reports.append(sorted(set(fns))[:6])
         elif p.returncode != 0:
             if "build failed" in out or "cannot find" in out:
